@@ -23,6 +23,8 @@ def run(ctx):
     ctx.rule("R-ANNOUNCED-PGN", "the PGN bytes of RTS/BAM are data page | PF | PS-or-0 of the message's parameter group", floor=8)
     ctx.rule("R-REFRESH", "as responder: every data packet of a conforming (slow but legal) peer re-arms the receive deadline, broadcasts included", floor=4)
     ctx.rule("R-WINDOW-AFFINE", "as originator: packets sent per CTS = granted count (clamps test the granted count)", floor=4)
+    ctx.rule("R-SESSION-FRESH", "as responder: a session's reassembly buffer is its own (the EndOfMsgACK is not sent before this message's packets arrived)", floor=4)
+    ctx.rule("R-DT-MINLEN", "as responder: FD.TP.DT frames with header + 1..60 data bytes are accepted (a conforming peer's short last segment)", floor=1)
     for fd in (False, True):
         L = T.Layer(ctx, fd=fd)
         LY.builders(ctx, L)
@@ -35,8 +37,10 @@ def run(ctx):
         F.window_affine(ctx, L)
         LY.announced_pgn(ctx, L)
         TM.wakeup_cover(ctx, L)
+        S.session_fresh(ctx, L)
         if fd:
             LY.lut_legal(ctx, L)
+            S.dt_minlen(ctx, L)
             fdseg.seg_const_fd(ctx, L)
         else:
             S.seg_const(ctx, L)
